@@ -272,6 +272,12 @@ impl RewriteBridge {
                         .wrapping_sub(src_timestamp);
                 }
                 state.last_source_timestamp = Some(src_timestamp);
+            } else if delta.wrapping_neg() > 900_000 {
+                // Large backward step: the source restarted its timeline further back (this is
+                // not a reordered packet). The offset is kept, so source differences are
+                // preserved, but later steps must be measured from here rather than from the old
+                // high-water mark, which may be half a timestamp space away.
+                state.last_source_timestamp = Some(src_timestamp);
             }
         } else {
             // First packet of this source stream: optionally pin the output
